@@ -82,44 +82,59 @@ func runC16(c *Ctx) {
 	c.Samplef("policy{%s} means redir=%#x idle=%d caps=%#x; %s", pol, tw.MC.Redir, tw.MC.Idle, tw.MC.ServerCaps, strings.Join(descr, " | "))
 }
 
-// runC17: one handshake per run over client capability values x server settings x versions.
+// runC17: one handshake per tunnel over client capability values x server settings x versions;
+// a second tunnel may be shaking hands at the same time.
 func runC17(c *Ctx) {
-	tw := PlanTunnels(c, TunOpts{N: 1, Transports: []string{"ws", "legacy"}})
+	tw := PlanTunnels(c, TunOpts{N: 1 + c.T.Weighted(2, 1), Transports: []string{"ws", "legacy"}})
 	tw.Cfg.SmartCardAuth = c.T.Bool(1, 2)
 	tw.NTLM = c.T.Bool(1, 2) // all four server settings of {cookie auth, smart card}
 	if !BootTun(c, tw, false) {
 		return
 	}
-	p := tw.Plans[0]
-	var caps uint16
-	switch c.T.Weighted(4, 4, 2) {
-	case 0:
-		caps = []uint16{0, 1, 2, 3, 4, 5, 6, 7, 8, 0x10, 0x8000, 0xffff, 0xfffe, 0xfffd, 0xfffc, 0x0100, 0x0200}[c.T.Choose(17)]
-	case 1:
-		caps = uint16(c.T.Choose(0x10000))
-	default:
-		caps = uint16(1) << uint(c.T.Choose(16))
+	capsOf := map[string]uint16{}
+	verOf := map[string][2]byte{}
+	for _, p := range tw.Plans {
+		var caps uint16
+		switch c.T.Weighted(4, 4, 2) {
+		case 0:
+			caps = []uint16{0, 1, 2, 3, 4, 5, 6, 7, 8, 0x10, 0x8000, 0xffff, 0xfffe, 0xfffd, 0xfffc, 0x0100, 0x0200}[c.T.Choose(17)]
+		case 1:
+			caps = uint16(c.T.Choose(0x10000))
+		default:
+			caps = uint16(1) << uint(c.T.Choose(16))
+		}
+		if v, ok := c.Arg["caps"]; ok {
+			var x int
+			fmt.Sscanf(v, "%d", &x)
+			caps = uint16(x)
+		}
+		major, minor := byte(c.T.Choose(256)), byte(c.T.Choose(256))
+		capsOf[p.Name], verOf[p.Name] = caps, [2]byte{major, minor}
+		p.Pkts = []CPkt{PHandshake(caps, major, minor), PTunnelCreate(ValidCookie(c, tw, p, p.AllowedHost), true), PTunnelAuth("n")}
 	}
-	if v, ok := c.Arg["caps"]; ok {
-		var x int
-		fmt.Sscanf(v, "%d", &x)
-		caps = uint16(x)
-	}
-	major, minor := byte(c.T.Choose(256)), byte(c.T.Choose(256))
-	p.Pkts = []CPkt{PHandshake(caps, major, minor), PTunnelCreate(ValidCookie(c, tw, p, p.AllowedHost), true), PTunnelAuth("n")}
 	tw.Tuns = StartTunnels(c, tw.Plans)
-	RunTunnels(c, tw.Tuns, 2000)
-	t := tw.Tuns[0]
-	if t.Client.Failed != "" || t.Err != "" {
-		c.Infra("transport setup failed: %s %s", t.Client.Failed, t.Err)
-		return
+	RunTunnels(c, tw.Tuns, 3000)
+	for _, t := range tw.Tuns {
+		if t.Client.Failed != "" || t.Err != "" {
+			c.Infra("transport setup failed: %s %s", t.Client.Failed, t.Err)
+			return
+		}
 	}
-	v := CheckTunnel(c, t, tw.MC, "C17")
-	if c.S.Viol != nil && (c.S.Viol.Oracle == "C01" || c.S.Viol.Oracle == "C16") {
-		// in this scenario the only reason for a refusal is the capability check
-		c.S.Viol.Oracle = "C17"
-	}
-	if c.S.Viol == nil {
+	var outs []string
+	for _, t := range tw.Tuns {
+		p := t.Plan
+		caps := capsOf[p.Name]
+		v := CheckTunnel(c, t, tw.MC, "C17")
+		if c.S.Viol != nil && (c.S.Viol.Oracle == "C01" || c.S.Viol.Oracle == "C16") {
+			// in this scenario the only reason for a refusal is the capability check
+			c.S.Viol.Oracle = "C17"
+		}
+		if c.S.Viol != nil {
+			if len(tw.Tuns) > 1 {
+				c.S.Viol.Msg = fmt.Sprintf("[%d tunnels shaking hands at the same time] %s", len(tw.Tuns), c.S.Viol.Msg)
+			}
+			break
+		}
 		ok := (caps == 0 && tw.MC.ServerCaps == 0) || caps&tw.MC.ServerCaps != 0
 		if !ok {
 			c.S.Count("probe.capability_mismatch")
@@ -133,7 +148,8 @@ func runC17(c *Ctx) {
 				c.S.Fail("C17", "cannot-proceed", "%s: handshake matched (client %#x, server %#x) but the tunnel could not proceed: %s", p.Name, caps, tw.MC.ServerCaps, t.Client.Describe())
 			}
 		}
+		outs = append(outs, fmt.Sprintf("%s client-caps=%#x version=%d.%d => accepted=%v events=%s", p.Transport, caps, verOf[p.Name][0], verOf[p.Name][1], v.Accepted, t.Client.Describe()))
 	}
 	c.Res.Reach = true
-	c.Samplef("%s server-caps=%#x client-caps=%#x version=%d.%d => accepted=%v events=%s", p.Transport, tw.MC.ServerCaps, caps, major, minor, v.Accepted, t.Client.Describe())
+	c.Samplef("server-caps=%#x: %s", tw.MC.ServerCaps, strings.Join(outs, " | "))
 }
